@@ -87,7 +87,7 @@ func (f *Frame) execCallCommon(ins ssa.Instruction, c *ssa.CallCommon, st *State
 		return f.execBuiltin(b, c, args, st, ins)
 	}
 	// contract
-	if spec, ok := u.eng.Contracts[name]; ok && !(spec.Inline && c.StaticCallee() != nil) {
+	if spec, ok := u.eng.contractFor(name, u.pkgName()); ok && !(spec.Inline && c.StaticCallee() != nil) {
 		return f.applyContract(spec, name, c, sig, args, st, anchor)
 	}
 	// intrinsics
@@ -114,10 +114,10 @@ func (f *Frame) execCallCommon(ins ssa.Instruction, c *ssa.CallCommon, st *State
 	}
 	if target != nil {
 		tname := canonFn(target)
-		if spec, ok := u.eng.Contracts[tname]; ok && !spec.Inline {
+		if spec, ok := u.eng.contractFor(tname, u.pkgName()); ok && !spec.Inline {
 			return f.applyContract(spec, tname, c, sig, args, st, anchor)
 		}
-		spec := u.eng.Contracts[tname]
+		spec, _ := u.eng.contractFor(tname, u.pkgName())
 		if target.Parent() != nil || (spec != nil && spec.Inline) {
 			if len(target.Blocks) > 0 && u.inlineDepth < maxInlineDepth {
 				return f.inline(target, env, args, st)
@@ -841,7 +841,7 @@ func (f *Frame) callFnValue(fv Val, args []Val, st *State, sig *types.Signature,
 // inlineOrContract uses the closure's own contract when it has one, else inlines it.
 func (f *Frame) inlineOrContract(target *ssa.Function, env []Val, args []Val, st *State, sig *types.Signature, hint string) Val {
 	u := f.u
-	if spec, ok := u.eng.Contracts[canonFn(target)]; ok && !spec.Inline {
+	if spec, ok := u.eng.contractFor(canonFn(target), u.pkgName()); ok && !spec.Inline {
 		cc := &ssa.CallCommon{Value: target}
 		return f.applyContract(spec, canonFn(target), cc, target.Signature, args, st, hint)
 	}
